@@ -19,6 +19,13 @@ structure InfoOK (f : Fmt) (env env' : Array Nat) (x : Info) (v' v : Nat) : Prop
   negOf : ∀ k, x.negOf = some k → ∃ u u', env[k]? = some u ∧ env'[k]? = some u' ∧ v = FP.neg f u ∧ v' = FP.neg f u'
   zero : x.zero = true → v' = v ∧ magBits f v = 0
   nzin : x.nzin = true → v' = FP.neg f v ∧ isNaNBits f v = false ∧ magBits f v ≠ 0
+  cst : ∀ c, x.cst = some c → v = c ∧ v' = c
+  kb : ∀ b, x.kb = some b → (v != 0) = b ∧ (v' != 0) = b
+  eqc : ∀ a c, x.eqc = some (a, c) → isNaNBits f c = false ∧
+    ∃ u u', env[a]? = some u ∧ env'[a]? = some u' ∧ v = b2n (FP.eq f u c) ∧ v' = b2n (FP.eq f u' c)
+  addsub : ∀ t a b, x.addsub = some (t, a, b) → ∃ ua ua' ub ub', env[a]? = some ua ∧ env'[a]? = some ua' ∧
+    env[b]? = some ub ∧ env'[b]? = some ub' ∧
+    v = (if t then FP.add f ua ub else FP.sub f ua ub) ∧ v' = (if t then FP.add f ua' ub' else FP.sub f ua' ub')
 
 def Inv (f : Fmt) (infos : List Info) (env env' : Array Nat) : Prop :=
   infos.length = env.size ∧ env.size = env'.size ∧
@@ -30,12 +37,16 @@ def InsOK (f : Fmt) (cfg : Cfg) (ins ins' : List Nat) : Prop :=
     Rel f ((cfg.sigma[i]?).getD .unk) a' a ∧
     (cfg.nz.contains i = true → (cfg.sigma[i]?).getD .unk = .neg → a' = FP.neg f a ∧ isNaNBits f a = false ∧ magBits f a ≠ 0)
 
-/-- what is assumed of the transcendental oracle: it does not look at NaN payloads/signs, and
-atan2 is odd in its first argument (C99 Annex F). -/
+/-- what is assumed of the transcendental oracle: it does not look at NaN payloads/signs, atan2 is
+odd in its first argument, cos is even, sin is odd, and sign(−a) = −sign(a) for a ≠ 0. -/
 structure LibOK (f : Fmt) (lib : Libm) : Prop where
   congr : ∀ name args args' r r', List.Forall₂ (eqvN f) args' args → lib name args = some r → lib name args' = some r' → eqvN f r' r
   atan2_odd : ∀ a a' b b' r r', eqvN f a' (FP.neg f a) → eqvN f b' b →
     lib "atan2" [a, b] = some r → lib "atan2" [a', b'] = some r' → eqvN f r' (FP.neg f r)
+  cos_even : ∀ a a' r r', eqvN f a' (FP.neg f a) → lib "cos" [a] = some r → lib "cos" [a'] = some r' → eqvN f r' r
+  sin_odd : ∀ a a' r r', eqvN f a' (FP.neg f a) → lib "sin" [a] = some r → lib "sin" [a'] = some r' → eqvN f r' (FP.neg f r)
+  sign_odd : ∀ a r r', isNaNBits f a = false → magBits f a ≠ 0 →
+    lib "sign" [a] = some r → lib "sign" [FP.neg f a] = some r' → eqvN f r' (FP.neg f r)
 
 theorem eqvN_truth {f : Fmt} (hf : WF f) {a' a : Nat} (h : eqvN f a' a) : (a' != 0) = (a != 0) := by
   rcases h with rfl | ⟨h1, h2⟩
@@ -110,7 +121,20 @@ lemma infoOK_plain {env env' : Array Nat} {d : Desc} {v' v : Nat} (h : Rel f d v
   { rel := h
     negOf := fun k hk => by simp at hk
     zero := fun hz => by simp at hz
-    nzin := fun hz => by simp at hz }
+    nzin := fun hz => by simp at hz
+    cst := fun c hc => by simp at hc
+    kb := fun b hb => by simp at hb
+    eqc := fun a c hc => by simp at hc
+    addsub := fun t a b hc => by simp at hc }
+
+lemma dIdx_eq {infos : List Info} {j : Nat} {x : Info} (h : infos[j]? = some x) : dIdx infos j = x.d := by
+  simp [dIdx, h]
+
+lemma push_lookup {env : Array Nat} {k u : Nat} (h : env[k]? = some u) (w : Nat) : (env.push w)[k]? = some u := by
+  have hk : k < env.size := by
+    by_contra hc; push Not at hc
+    rw [Array.getElem?_eq_none hc] at h; cases h
+  rw [Array.getElem?_push_lt hk]; rw [Array.getElem?_eq_getElem hk] at h; exact h
 
 end FAVerif.Sym
 
@@ -236,7 +260,8 @@ lemma rel_bnot_b2n {b' b : Bool} (h : b' = !b) : Rel f .bnot (b2n b') (b2n b) :=
 /-- generic comparison case -/
 lemma cmp_case (hf : WF f) {infos : List Info} {env env' : Array Nat} (hinv : Inv f infos env env') {args : List Nat}
     {g : Nat → Nat → Bool} (hg : ∀ a' a b' b, eqvN f a' a → eqvN f b' b → g a' b' = g a b)
-    (hflip : ∀ a z, isNaNBits f a = false → magBits f a ≠ 0 → magBits f z = 0 → g (FP.neg f a) z = !g a z) {v v' : Nat}
+    (hflip : ∀ a z, isNaNBits f a = false → magBits f a ≠ 0 → magBits f z = 0 → g (FP.neg f a) z = !g a z)
+    (hflip2 : ∀ a z, isNaNBits f a = false → magBits f a ≠ 0 → magBits f z = 0 → g z (FP.neg f a) = !g z a) {v v' : Nat}
     (h : (do let a ← (args[0]? >>= fun k => env[k]?); let b ← (args[1]? >>= fun k => env[k]?); some (b2n (g a b))) = some v)
     (h' : (do let a ← (args[0]? >>= fun k => env'[k]?); let b ← (args[1]? >>= fun k => env'[k]?); some (b2n (g a b))) = some v') :
     Rel f (if dOf infos args 0 = .same ∧ dOf infos args 1 = .same then .same else if cmpFlip infos args then .bnot else .unk) v' v := by
@@ -252,12 +277,18 @@ lemma cmp_case (hf : WF f) {infos : List Info} {env env' : Array Nat} (hinv : In
     exact rel_same_b2n (hg _ _ _ _ ra rb)
   · split
     · rename_i hc
-      simp only [cmpFlip, ia, ib, Bool.and_eq_true] at hc
-      obtain ⟨e1, e2, e3⟩ := oka.nzin hc.1
-      obtain ⟨e4, e5⟩ := okb.zero hc.2
-      apply rel_bnot_b2n
-      rw [e1, e4]
-      exact hflip a b e2 e3 e5
+      simp only [cmpFlip, ia, ib, Bool.or_eq_true, Bool.and_eq_true] at hc
+      rcases hc with hc | hc
+      · obtain ⟨e1, e2, e3⟩ := oka.nzin hc.1
+        obtain ⟨e4, e5⟩ := okb.zero hc.2
+        apply rel_bnot_b2n
+        rw [e1, e4]
+        exact hflip a b e2 e3 e5
+      · obtain ⟨e1, e2, e3⟩ := okb.nzin hc.1
+        obtain ⟨e4, e5⟩ := oka.zero hc.2
+        apply rel_bnot_b2n
+        rw [e1, e4]
+        exact hflip2 b a e2 e3 e5
     · trivial
 
 lemma mapM_forall₂ {infos : List Info} {env env' : Array Nat} (hinv : Inv f infos env env') :
@@ -331,6 +362,175 @@ lemma select_rel (hf : WF f) {dc da db : Desc} {np : Bool} {c' c a' a b' b : Nat
           rw [if_neg hcz, if_pos h2, e3, neg_neg' f hf]; exact ra
     · rw [if_neg hd]; trivial
 
+
+lemma one_arg {infos : List Info} {env env' : Array Nat} (hinv : Inv f infos env env') {args vs vs' : List Nat}
+    (hlen : args.length = 1) (hvs : args.mapM (fun k => env[k]?) = some vs) (hvs' : args.mapM (fun k => env'[k]?) = some vs') :
+    ∃ (a a' : Nat) (x : Info) (j : Nat), env[j]? = some a ∧ env'[j]? = some a' ∧ InfoOK f env env' x a' a ∧ dOf infos args 0 = x.d ∧
+      nzinOf infos args 0 = x.nzin ∧ vs = [a] ∧ vs' = [a'] := by
+  match hargs : args, hlen with
+  | [j0], _ =>
+    simp only [List.mapM_cons, List.mapM_nil, Option.bind_eq_bind] at hvs hvs'
+    cases e0 : env[j0]? with
+    | none => simp [e0] at hvs
+    | some a =>
+      cases e0' : env'[j0]? with
+      | none => simp [e0'] at hvs'
+      | some a' =>
+        simp [e0] at hvs; simp [e0'] at hvs'
+        subst hvs; subst hvs'
+        obtain ⟨x0, hx0, ok0⟩ := inv_lookup hinv e0 e0'
+        exact ⟨a, a', x0, j0, e0, e0', ok0, by simp [dOf, hx0], by simp [nzinOf, infoOf, hx0], rfl, rfl⟩
+
+lemma eq_nz_zero (hf : WF f) {a z : Nat} (hnz : magBits f a ≠ 0) (hz : magBits f z = 0) : FP.eq f a z = false := by
+  have hoz := ord_of_mag0 f hz
+  have hoa : ord f a ≠ 0 := by
+    unfold ord; split
+    · intro h; apply hnz; omega
+    · intro h; apply hnz; omega
+  unfold FP.eq
+  rw [hoz]
+  simp [hoa]
+
+/-- an exactly negated non-zero operand against ±0: equality is false in both runs -/
+lemma eq_false_of_flip (hf : WF f) {infos : List Info} {env env' : Array Nat} {args : List Nat} {xa xb : Info} {a a' b b' : Nat}
+    (ia : infoOf infos args 0 = some xa) (ib : infoOf infos args 1 = some xb)
+    (oka : InfoOK f env env' xa a' a) (okb : InfoOK f env env' xb b' b) (hc : cmpFlip infos args = true) :
+    FP.eq f a b = false ∧ FP.eq f a' b' = false := by
+  simp only [cmpFlip, ia, ib, Bool.or_eq_true, Bool.and_eq_true] at hc
+  rcases hc with hc | hc
+  · obtain ⟨e1, e2, e3⟩ := oka.nzin hc.1
+    obtain ⟨e4, e5⟩ := okb.zero hc.2
+    refine ⟨eq_nz_zero hf e3 e5, ?_⟩
+    rw [e1, e4]
+    exact eq_nz_zero hf (by rw [magBits_neg f hf]; exact e3) e5
+  · obtain ⟨e1, e2, e3⟩ := okb.nzin hc.1
+    obtain ⟨e4, e5⟩ := oka.zero hc.2
+    rw [eq_comm' f a b, eq_comm' f a' b']
+    refine ⟨eq_nz_zero hf e3 e5, ?_⟩
+    rw [e1, e4]
+    exact eq_nz_zero hf (by rw [magBits_neg f hf]; exact e3) e5
+
+lemma eq_neg_zero_rel (hf : WF f) {infos : List Info} {env env' : Array Nat} {args : List Nat} {xa xb : Info} {a a' b b' : Nat}
+    (ia : infoOf infos args 0 = some xa) (ib : infoOf infos args 1 = some xb)
+    (oka : InfoOK f env env' xa a' a) (okb : InfoOK f env env' xb b' b) (hz : eqNegZero infos args = true) :
+    FP.eq f a' b' = FP.eq f a b := by
+  simp only [eqNegZero, ia, ib, Bool.or_eq_true, Bool.and_eq_true, beq_iff_eq] at hz
+  rcases hz with hz | hz
+  · have ra := oka.rel; rw [hz.1] at ra
+    obtain ⟨e4, e5⟩ := okb.zero hz.2
+    rw [e4, eq_congr f ra (eqvN_refl f b), eq_neg_zero f hf a b e5]
+  · have rb := okb.rel; rw [hz.1] at rb
+    obtain ⟨e4, e5⟩ := oka.zero hz.2
+    rw [e4, eq_comm' f a b', eq_comm' f a b, eq_congr f rb (eqvN_refl f a), eq_neg_zero f hf b a e5]
+
+lemma or_swap_rel (hf : WF f) {infos : List Info} {env env' : Array Nat} (hinv : Inv f infos env env') {args : List Nat}
+    {xa xb : Info} {a a' b b' : Nat}
+    (ia : infoOf infos args 0 = some xa) (ib : infoOf infos args 1 = some xb)
+    (oka : InfoOK f env env' xa a' a) (okb : InfoOK f env env' xb b' b) (hs : orSwap f infos args = true) :
+    Rel f .same (b2n (a' != 0 || b' != 0)) (b2n (a != 0 || b != 0)) := by
+  simp only [orSwap, ia, ib] at hs
+  cases hea : xa.eqc with
+  | none => simp [hea] at hs
+  | some p1 =>
+    cases heb : xb.eqc with
+    | none => simp [hea, heb] at hs
+    | some p2 =>
+      obtain ⟨a1, c1⟩ := p1
+      obtain ⟨a2, c2⟩ := p2
+      simp only [hea, heb, Bool.and_eq_true, beq_iff_eq] at hs
+      obtain ⟨⟨h1, h2⟩, h3⟩ := hs
+      subst h1
+      obtain ⟨n1, u, u', q1, q2, q3, q4⟩ := oka.eqc a1 c1 hea
+      obtain ⟨n2, w, w', r1, r2, r3, r4⟩ := okb.eqc a1 c2 heb
+      rw [q1] at r1; rw [q2] at r2; cases r1; cases r2
+      obtain ⟨x, hx, ok⟩ := inv_lookup hinv q1 q2
+      have ru := ok.rel
+      rw [← dIdx_eq hx, h3] at ru
+      simp only [Rel] at ru
+      apply rel_same_b2n
+      rw [q3, q4, r3, r4]
+      simp only [b2n_truth]
+      have k1 : FP.eq f u' c1 = FP.eq f u c2 := by
+        rw [eq_congr f ru (eqvN_refl f c1), h2]
+        conv_lhs => rw [← neg_neg' f hf c1]
+        rw [eq_neg_neg f hf]
+      have k2 : FP.eq f u' c2 = FP.eq f u c1 := by
+        rw [eq_congr f ru (eqvN_refl f c2), h2, eq_neg_neg f hf]
+      rw [k1, k2, Bool.or_comm]
+
+lemma swap_core (hf : WF f) {c c' x x' : Nat} (hc : eqvN f c' c) (hx : eqvN f x' (FP.neg f x)) :
+    eqvN f (FP.add f c' x') (FP.sub f c x) ∧ eqvN f (FP.sub f c' x') (FP.add f c x) := by
+  constructor
+  · exact eqvN_trans (add_congr f hf hc hx) (add_neg_eqv_sub f hf c x)
+  · refine eqvN_trans (sub_congr f hf hc hx) ?_
+    rw [sub_neg_eq_add f hf]; exact eqvN_refl f _
+
+lemma swap_pair_rel (hf : WF f) {infos : List Info} {env env' : Array Nat} (hinv : Inv f infos env env') {args : List Nat}
+    {xa xb : Info} {a a' b b' : Nat}
+    (ia : infoOf infos args 0 = some xa) (ib : infoOf infos args 1 = some xb)
+    (oka : InfoOK f env env' xa a' a) (okb : InfoOK f env env' xb b' b) (hs : swapPair infos args = true) :
+    Rel f .same (FP.mul f a' b') (FP.mul f a b) := by
+  simp only [swapPair, ia, ib] at hs
+  cases hea : xa.addsub with
+  | none => simp [hea] at hs
+  | some p1 =>
+    cases heb : xb.addsub with
+    | none => simp [hea, heb] at hs
+    | some p2 =>
+      obtain ⟨t1, a1, b1⟩ := p1
+      obtain ⟨t2, a2, b2⟩ := p2
+      simp only [hea, heb, Bool.and_eq_true, beq_iff_eq, Bool.or_eq_true, bne_iff_ne, ne_eq] at hs
+      obtain ⟨⟨⟨ht, hab⟩, hsa⟩, hsb⟩ := hs
+      obtain ⟨ua, ua', ub, ub', q1, q2, q3, q4, q5, q6⟩ := oka.addsub t1 a1 b1 hea
+      obtain ⟨wa, wa', wb, wb', r1, r2, r3, r4, r5, r6⟩ := okb.addsub t2 a2 b2 heb
+      simp only [Rel]
+      cases t1 with
+      | true =>
+        -- first factor is the sum, second the difference (a2 ⊖ b2)
+        have ht2 : t2 = false := by cases t2 <;> simp_all
+        subst ht2
+        simp only [if_true] at hab hsa hsb q5 q6
+        simp only [Bool.false_eq_true, if_false] at r5 r6
+        obtain ⟨xc, hxc, okc⟩ := inv_lookup hinv r1 r2
+        obtain ⟨xx, hxx, okx⟩ := inv_lookup hinv r3 r4
+        have rc := okc.rel; rw [← dIdx_eq hxc, hsa] at rc
+        have rx := okx.rel; rw [← dIdx_eq hxx, hsb] at rx
+        simp only [Rel] at rc rx
+        obtain ⟨s1, s2⟩ := swap_core hf rc rx
+        rcases hab with ⟨e1, e2⟩ | ⟨e1, e2⟩
+        · subst e1; subst e2
+          rw [q1] at r1; rw [q2] at r2; rw [q3] at r3; rw [q4] at r4
+          cases r1; cases r2; cases r3; cases r4
+          rw [q5, q6, r5, r6, mul_comm' f (FP.add f ua ub) (FP.sub f ua ub)]
+          exact mul_congr f hf s1 s2
+        · subst e1; subst e2
+          rw [q1] at r3; rw [q2] at r4; rw [q3] at r1; rw [q4] at r2
+          cases r1; cases r2; cases r3; cases r4
+          rw [q5, q6, r5, r6, add_comm' f ua ub, add_comm' f ua' ub', mul_comm' f (FP.add f ub ua) (FP.sub f ub ua)]
+          exact mul_congr f hf s1 s2
+      | false =>
+        have ht2 : t2 = true := by cases t2 <;> simp_all
+        subst ht2
+        simp only [Bool.false_eq_true, if_false] at hab hsa hsb q5 q6
+        simp only [if_true] at r5 r6
+        obtain ⟨xc, hxc, okc⟩ := inv_lookup hinv q1 q2
+        obtain ⟨xx, hxx, okx⟩ := inv_lookup hinv q3 q4
+        have rc := okc.rel; rw [← dIdx_eq hxc, hsa] at rc
+        have rx := okx.rel; rw [← dIdx_eq hxx, hsb] at rx
+        simp only [Rel] at rc rx
+        obtain ⟨s1, s2⟩ := swap_core hf rc rx
+        rcases hab with ⟨e1, e2⟩ | ⟨e1, e2⟩
+        · subst e1; subst e2
+          rw [q1] at r1; rw [q2] at r2; rw [q3] at r3; rw [q4] at r4
+          cases r1; cases r2; cases r3; cases r4
+          rw [q5, q6, r5, r6, mul_comm' f (FP.sub f ua ub) (FP.add f ua ub)]
+          exact mul_congr f hf s2 s1
+        · subst e1; subst e2
+          rw [q1] at r3; rw [q2] at r4; rw [q3] at r1; rw [q4] at r2
+          cases r1; cases r2; cases r3; cases r4
+          rw [q5, q6, r5, r6, add_comm' f ub ua, add_comm' f ub' ua', mul_comm' f (FP.sub f ua ub) (FP.add f ua ub)]
+          exact mul_congr f hf s2 s1
+
 theorem step_ok (hf : WF f) (cfg : Cfg) (lib : Libm) (hlib : LibOK f lib) (ins ins' : List Nat) (hins : InsOK f cfg ins ins')
     (infos : List Info) (env env' : Array Nat) (hinv : Inv f infos env env') (n : Node) (v v' : Nat)
     (h : evalNode f lib ins env n = some v) (h' : evalNode f lib ins' env' n = some v') :
@@ -341,20 +541,39 @@ theorem step_ok (hf : WF f) (cfg : Cfg) (lib : Libm) (hlib : LibOK f lib) (ins i
     simp only [hop] at h h'
     simp only [stepInfo, hop]
     obtain ⟨r1, r2⟩ := hins n.imm v v' h h'
-    refine ⟨r1, fun k hk => by simp at hk, fun hz => by simp at hz, ?_⟩
-    intro hz
-    simp only [Bool.and_eq_true, beq_iff_eq] at hz
-    exact r2 hz.1 hz.2
+    exact {
+      rel := r1
+      negOf := fun k hk => by simp at hk
+      zero := fun hz => by simp at hz
+      nzin := by
+        intro hz
+        simp only [Bool.and_eq_true, beq_iff_eq] at hz
+        exact r2 hz.1 hz.2
+      cst := fun c hc => by simp at hc
+      kb := fun b hb => by simp at hb
+      eqc := fun a c hc => by simp at hc
+      addsub := fun t a b hc => by simp at hc }
   | const =>
     simp only [hop] at h h'
     simp only [stepInfo, hop]
     cases h; cases h'
-    refine ⟨eqvN_refl f _, fun k hk => by simp at hk, ?_, fun hz => by simp at hz⟩
-    intro hz
-    refine ⟨rfl, ?_⟩
-    simp only [Bool.or_eq_true, beq_iff_eq] at hz
-    have hS : 0 < f.signBit := by rw [signBit_eq f hf]; positivity
-    rcases hz with hz | hz <;> simp [magBits, hz, Nat.zero_mod]
+    exact {
+      rel := eqvN_refl f _
+      negOf := fun k hk => by simp at hk
+      zero := by
+        intro hz
+        refine ⟨rfl, ?_⟩
+        simp only [Bool.or_eq_true, beq_iff_eq] at hz
+        have hS : 0 < f.signBit := by rw [signBit_eq f hf]; positivity
+        rcases hz with hz | hz <;> simp [magBits, hz, Nat.zero_mod]
+      nzin := fun hz => by simp at hz
+      cst := by
+        intro c hc
+        simp only [Option.some.injEq] at hc
+        exact ⟨hc, hc⟩
+      kb := fun b hb => by simp at hb
+      eqc := fun a c hc => by simp at hc
+      addsub := fun t a b hc => by simp at hc }
   | bconst =>
     simp only [hop] at h h'
     simp only [stepInfo, hop]
@@ -365,17 +584,31 @@ theorem step_ok (hf : WF f) (cfg : Cfg) (lib : Libm) (hlib : LibOK f lib) (ins i
     simp only [stepInfo, hop]
     obtain ⟨a, ha, rfl⟩ := bind1_some h
     obtain ⟨a', ha', rfl⟩ := bind1_some h'
-    obtain ⟨j, x, hj, hx, ok, dd, _, ea, ea'⟩ := arg_pair hinv ha ha'
-    refine ⟨?_, ?_, fun hz => by simp at hz, fun hz => by simp at hz⟩
-    · rw [dd]
-      have r := ok.rel
-      cases hd : x.d <;> rw [hd] at r <;> simp only [Rel] at r ⊢
-      · exact neg_congr f hf r
-      · exact neg_congr f hf r
-    · intro k hk
-      simp only at hk
-      rw [hj] at hk; cases hk
-      exact ⟨a, a', ea, ea', rfl, rfl⟩
+    obtain ⟨j, x, hj, hx, ok, dd, io, ea, ea'⟩ := arg_pair hinv ha ha'
+    exact {
+      rel := by
+        rw [dd]
+        have r := ok.rel
+        cases hd : x.d <;> rw [hd] at r <;> simp only [Rel] at r ⊢
+        · exact neg_congr f hf r
+        · exact neg_congr f hf r
+      negOf := by
+        intro k hk
+        simp only at hk
+        rw [hj] at hk; cases hk
+        exact ⟨a, a', ea, ea', rfl, rfl⟩
+      zero := fun hz => by simp at hz
+      nzin := by
+        intro hz
+        simp only [nzinOf, io] at hz
+        obtain ⟨e1, e2, e3⟩ := ok.nzin hz
+        refine ⟨by rw [e1], ?_, ?_⟩
+        · rw [isNaN_neg f hf]; exact e2
+        · rw [magBits_neg f hf]; exact e3
+      cst := fun c hc => by simp at hc
+      kb := fun b hb => by simp at hb
+      eqc := fun a c hc => by simp at hc
+      addsub := fun t a b hc => by simp at hc }
   | abs =>
     simp only [hop] at h h'
     simp only [stepInfo, hop]
@@ -402,22 +635,82 @@ theorem step_ok (hf : WF f) (cfg : Cfg) (lib : Libm) (hlib : LibOK f lib) (ins i
   | add =>
     simp only [hop] at h h'
     simp only [stepInfo, hop]
-    exact infoOK_plain (bin_same hf hinv (fun _ _ _ _ => add_congr f hf) h h')
+    obtain ⟨a, b, ha, hb, rfl⟩ := bind2_some h
+    obtain ⟨a', b', ha', hb', rfl⟩ := bind2_some h'
+    obtain ⟨ja, xa, hja, _, oka, da, _, eja, eja'⟩ := arg_pair hinv ha ha'
+    obtain ⟨jb, xb, hjb, _, okb, db, _, ejb, ejb'⟩ := arg_pair hinv hb hb'
+    exact {
+      rel := by
+        rw [da, db]
+        have ra := oka.rel; have rb := okb.rel
+        by_cases hd : xa.d = .same ∧ xb.d = .same
+        · rw [if_pos hd]
+          rw [hd.1] at ra; rw [hd.2] at rb
+          exact add_congr f hf ra rb
+        · rw [if_neg hd]
+          by_cases h2 : n.args[0]? = n.args[1]? ∧ xa.d = .neg
+          · rw [if_pos h2]
+            have hjj : ja = jb := by
+              have := h2.1; rw [hja, hjb] at this; simpa using this
+            subst hjj
+            rw [eja] at ejb; rw [eja'] at ejb'; cases ejb; cases ejb'
+            rw [h2.2] at ra
+            simp only [Rel] at ra ⊢
+            refine eqvN_trans (add_congr f hf ra ra) ?_
+            rw [add_neg_neg_self f hf a]; exact eqvN_negN_neg f hf _
+          · rw [if_neg h2]; trivial
+      negOf := fun k hk => by simp at hk
+      zero := fun hz => by simp at hz
+      nzin := fun hz => by simp at hz
+      cst := fun c hc => by simp at hc
+      kb := fun b hb => by simp at hb
+      eqc := fun a c hc => by simp at hc
+      addsub := by
+        intro t a0 b0 hc
+        simp only [argPair, hja, hjb, Option.map_some, Option.some.injEq, Prod.mk.injEq] at hc
+        obtain ⟨rfl, rfl, rfl⟩ := hc
+        exact ⟨a, a', b, b', eja, eja', ejb, ejb', by simp, by simp⟩ }
   | sub =>
     simp only [hop] at h h'
     simp only [stepInfo, hop]
-    exact infoOK_plain (bin_same hf hinv (fun _ _ _ _ => sub_congr f hf) h h')
+    obtain ⟨a, b, ha, hb, rfl⟩ := bind2_some h
+    obtain ⟨a', b', ha', hb', rfl⟩ := bind2_some h'
+    obtain ⟨ja, xa, hja, _, oka, da, _, eja, eja'⟩ := arg_pair hinv ha ha'
+    obtain ⟨jb, xb, hjb, _, okb, db, _, ejb, ejb'⟩ := arg_pair hinv hb hb'
+    exact {
+      rel := by
+        rw [da, db]
+        have ra := oka.rel; have rb := okb.rel
+        by_cases hd : xa.d = .same ∧ xb.d = .same
+        · rw [if_pos hd]
+          rw [hd.1] at ra; rw [hd.2] at rb
+          exact sub_congr f hf ra rb
+        · rw [if_neg hd]; trivial
+      negOf := fun k hk => by simp at hk
+      zero := fun hz => by simp at hz
+      nzin := fun hz => by simp at hz
+      cst := fun c hc => by simp at hc
+      kb := fun b hb => by simp at hb
+      eqc := fun a c hc => by simp at hc
+      addsub := by
+        intro t a0 b0 hc
+        simp only [argPair, hja, hjb, Option.map_some, Option.some.injEq, Prod.mk.injEq] at hc
+        obtain ⟨rfl, rfl, rfl⟩ := hc
+        exact ⟨a, a', b, b', eja, eja', ejb, ejb', by simp, by simp⟩ }
   | mul =>
     simp only [hop] at h h'
     simp only [stepInfo, hop]
     obtain ⟨a, b, ha, hb, rfl⟩ := bind2_some h
     obtain ⟨a', b', ha', hb', rfl⟩ := bind2_some h'
-    obtain ⟨_, xa, _, _, oka, da, _, _, _⟩ := arg_pair hinv ha ha'
-    obtain ⟨_, xb, _, _, okb, db, _, _, _⟩ := arg_pair hinv hb hb'
+    obtain ⟨_, xa, _, _, oka, da, ia, _, _⟩ := arg_pair hinv ha ha'
+    obtain ⟨_, xb, _, _, okb, db, ib, _, _⟩ := arg_pair hinv hb hb'
     apply infoOK_plain
-    rw [da, db]
-    exact mulDesc_rel hf (fun _ _ _ _ => mul_congr f hf) (fun _ _ _ _ => mul_rel_neg_same f hf)
-      (fun _ _ _ _ => mul_rel_same_neg f hf) (fun _ _ _ _ => mul_rel_neg_neg f hf) oka.rel okb.rel
+    by_cases hs : swapPair infos n.args = true
+    · rw [if_pos hs]
+      exact swap_pair_rel hf hinv ia ib oka okb hs
+    · rw [if_neg hs, da, db]
+      exact mulDesc_rel hf (fun _ _ _ _ => mul_congr f hf) (fun _ _ _ _ => mul_rel_neg_same f hf)
+        (fun _ _ _ _ => mul_rel_same_neg f hf) (fun _ _ _ _ => mul_rel_neg_neg f hf) oka.rel okb.rel
   | div =>
     simp only [hop] at h h'
     simp only [stepInfo, hop]
@@ -452,68 +745,150 @@ theorem step_ok (hf : WF f) (cfg : Cfg) (lib : Libm) (hlib : LibOK f lib) (ins i
   | or =>
     simp only [hop] at h h'
     simp only [stepInfo, hop]
-    refine infoOK_plain (bin_same hf hinv (g := fun a b => b2n (a != 0 || b != 0)) ?_ h h')
-    intro a' a b' b ra rb
-    rw [eqvN_truth hf ra, eqvN_truth hf rb]; exact eqvN_refl f _
+    obtain ⟨a, b, ha, hb, rfl⟩ := bind2_some h
+    obtain ⟨a', b', ha', hb', rfl⟩ := bind2_some h'
+    obtain ⟨ja, xa, hja, _, oka, da, ia, eja, eja'⟩ := arg_pair hinv ha ha'
+    obtain ⟨jb, xb, hjb, _, okb, db, ib, ejb, ejb'⟩ := arg_pair hinv hb hb'
+    apply infoOK_plain
+    rw [da, db]
+    have ra := oka.rel; have rb := okb.rel
+    by_cases hd : xa.d = .same ∧ xb.d = .same
+    · rw [if_pos hd]
+      rw [hd.1] at ra; rw [hd.2] at rb
+      simp only [Rel] at ra rb ⊢
+      rw [eqvN_truth hf ra, eqvN_truth hf rb]; exact eqvN_refl f _
+    · rw [if_neg hd]
+      by_cases hs : orSwap f infos n.args = true
+      · rw [if_pos hs]
+        exact or_swap_rel hf hinv ia ib oka okb hs
+      · rw [if_neg hs]; trivial
   | lt =>
     simp only [hop] at h h'
     simp only [stepInfo, hop]
     exact infoOK_plain (cmp_case hf hinv (g := FP.lt f) (fun _ _ _ _ => lt_congr f)
-      (fun a z h1 h2 h3 => (cmp_flip hf h1 h2 h3).1) h h')
+      (fun a z h1 h2 h3 => (cmp_flip hf h1 h2 h3).1) (fun a z h1 h2 h3 => (cmp_flip hf h1 h2 h3).2.2.1) h h')
   | le =>
     simp only [hop] at h h'
     simp only [stepInfo, hop]
     exact infoOK_plain (cmp_case hf hinv (g := FP.le f) (fun _ _ _ _ => le_congr f)
-      (fun a z h1 h2 h3 => (cmp_flip hf h1 h2 h3).2.1) h h')
+      (fun a z h1 h2 h3 => (cmp_flip hf h1 h2 h3).2.1) (fun a z h1 h2 h3 => (cmp_flip hf h1 h2 h3).2.2.2) h h')
   | gt =>
     simp only [hop] at h h'
     simp only [stepInfo, hop]
     exact infoOK_plain (cmp_case hf hinv (g := FP.gt f) (fun _ _ _ _ ra rb => lt_congr f rb ra)
-      (fun a z h1 h2 h3 => (cmp_flip hf h1 h2 h3).2.2.1) h h')
+      (fun a z h1 h2 h3 => (cmp_flip hf h1 h2 h3).2.2.1) (fun a z h1 h2 h3 => (cmp_flip hf h1 h2 h3).1) h h')
   | ge =>
     simp only [hop] at h h'
     simp only [stepInfo, hop]
     exact infoOK_plain (cmp_case hf hinv (g := FP.ge f) (fun _ _ _ _ ra rb => le_congr f rb ra)
-      (fun a z h1 h2 h3 => (cmp_flip hf h1 h2 h3).2.2.2) h h')
+      (fun a z h1 h2 h3 => (cmp_flip hf h1 h2 h3).2.2.2) (fun a z h1 h2 h3 => (cmp_flip hf h1 h2 h3).2.1) h h')
   | eq =>
     simp only [hop] at h h'
     simp only [stepInfo, hop]
     obtain ⟨a, b, ha, hb, rfl⟩ := bind2_some h
     obtain ⟨a', b', ha', hb', rfl⟩ := bind2_some h'
-    obtain ⟨_, xa, _, _, oka, da, _, _, _⟩ := arg_pair hinv ha ha'
-    obtain ⟨_, xb, _, _, okb, db, _, _, _⟩ := arg_pair hinv hb hb'
-    apply infoOK_plain
-    split
-    · rename_i hd
-      rw [da, db] at hd
-      have ra := oka.rel; have rb := okb.rel
-      rcases hd with hd | hd
-      · rw [hd.1] at ra; rw [hd.2] at rb
-        exact rel_same_b2n (eq_congr f ra rb)
-      · rw [hd.1] at ra; rw [hd.2] at rb
-        apply rel_same_b2n
-        rw [eq_congr f ra rb, eq_neg_neg f hf]
-    · trivial
+    obtain ⟨ja, xa, hja, _, oka, da, ia, eja, eja'⟩ := arg_pair hinv ha ha'
+    obtain ⟨jb, xb, hjb, _, okb, db, ib, ejb, ejb'⟩ := arg_pair hinv hb hb'
+    exact {
+      rel := by
+        rw [da, db]
+        have ra := oka.rel; have rb := okb.rel
+        by_cases hd : (xa.d = .same ∧ xb.d = .same) ∨ (xa.d = .neg ∧ xb.d = .neg)
+        · rw [if_pos hd]
+          apply rel_same_b2n
+          rcases hd with hd | hd
+          · rw [hd.1] at ra; rw [hd.2] at rb
+            rw [eq_congr f ra rb]
+          · rw [hd.1] at ra; rw [hd.2] at rb
+            rw [eq_congr f ra rb, eq_neg_neg f hf]
+        · rw [if_neg hd]
+          by_cases hz : eqNegZero infos n.args = true
+          · rw [if_pos hz]
+            apply rel_same_b2n
+            exact eq_neg_zero_rel hf ia ib oka okb hz
+          · rw [if_neg hz]; trivial
+      negOf := fun k hk => by simp at hk
+      zero := fun hz => by simp at hz
+      nzin := fun hz => by simp at hz
+      cst := fun c hc => by simp at hc
+      kb := by
+        intro b0 hb0
+        by_cases hc : cmpFlip infos n.args = true
+        · simp only [hc, if_true, Option.some.injEq] at hb0
+          subst hb0
+          obtain ⟨e1, e2⟩ := eq_false_of_flip hf ia ib oka okb hc
+          rw [b2n_truth, b2n_truth]; exact ⟨e1, e2⟩
+        · simp [hc] at hb0
+      eqc := by
+        intro a0 c0 hc
+        simp only [cstOf, ia, ib, hja, hjb] at hc
+        cases hcb : xb.cst with
+        | some c1 =>
+          simp only [hcb] at hc
+          by_cases hn : isNaNBits f c1 = true
+          · simp [hn] at hc
+          · simp only [hn, Bool.false_eq_true, if_false, Option.some.injEq, Prod.mk.injEq] at hc
+            obtain ⟨rfl, rfl⟩ := hc
+            obtain ⟨e1, e2⟩ := okb.cst c1 hcb
+            refine ⟨by simpa using hn, a, a', eja, eja', ?_, ?_⟩
+            · rw [e1]
+            · rw [e2]
+        | none =>
+          simp only [hcb] at hc
+          cases hca : xa.cst with
+          | none => simp [hca] at hc
+          | some c1 =>
+            simp only [hca] at hc
+            by_cases hn : isNaNBits f c1 = true
+            · simp [hn] at hc
+            · simp only [hn, Bool.false_eq_true, if_false, Option.some.injEq, Prod.mk.injEq] at hc
+              obtain ⟨rfl, rfl⟩ := hc
+              obtain ⟨e1, e2⟩ := oka.cst c1 hca
+              refine ⟨by simpa using hn, b, b', ejb, ejb', ?_, ?_⟩
+              · rw [e1, eq_comm']
+              · rw [e2, eq_comm']
+      addsub := fun t a b hc => by simp at hc }
   | ne =>
     simp only [hop] at h h'
     simp only [stepInfo, hop]
     obtain ⟨a, b, ha, hb, rfl⟩ := bind2_some h
     obtain ⟨a', b', ha', hb', rfl⟩ := bind2_some h'
-    obtain ⟨_, xa, _, _, oka, da, _, _, _⟩ := arg_pair hinv ha ha'
-    obtain ⟨_, xb, _, _, okb, db, _, _, _⟩ := arg_pair hinv hb hb'
-    apply infoOK_plain
-    split
-    · rename_i hd
-      rw [da, db] at hd
-      have ra := oka.rel; have rb := okb.rel
-      rcases hd with hd | hd
-      · rw [hd.1] at ra; rw [hd.2] at rb
-        apply rel_same_b2n
-        unfold FP.ne; rw [eq_congr f ra rb]
-      · rw [hd.1] at ra; rw [hd.2] at rb
-        apply rel_same_b2n
-        unfold FP.ne; rw [eq_congr f ra rb, eq_neg_neg f hf]
-    · trivial
+    obtain ⟨ja, xa, hja, _, oka, da, ia, eja, eja'⟩ := arg_pair hinv ha ha'
+    obtain ⟨jb, xb, hjb, _, okb, db, ib, ejb, ejb'⟩ := arg_pair hinv hb hb'
+    exact {
+      rel := by
+        rw [da, db]
+        have ra := oka.rel; have rb := okb.rel
+        by_cases hd : (xa.d = .same ∧ xb.d = .same) ∨ (xa.d = .neg ∧ xb.d = .neg)
+        · rw [if_pos hd]
+          apply rel_same_b2n
+          unfold FP.ne; congr 1
+          rcases hd with hd | hd
+          · rw [hd.1] at ra; rw [hd.2] at rb
+            rw [eq_congr f ra rb]
+          · rw [hd.1] at ra; rw [hd.2] at rb
+            rw [eq_congr f ra rb, eq_neg_neg f hf]
+        · rw [if_neg hd]
+          by_cases hz : eqNegZero infos n.args = true
+          · rw [if_pos hz]
+            apply rel_same_b2n
+            unfold FP.ne; congr 1
+            exact eq_neg_zero_rel hf ia ib oka okb hz
+          · rw [if_neg hz]; trivial
+      negOf := fun k hk => by simp at hk
+      zero := fun hz => by simp at hz
+      nzin := fun hz => by simp at hz
+      cst := fun c hc => by simp at hc
+      kb := by
+        intro b0 hb0
+        by_cases hc : cmpFlip infos n.args = true
+        · simp only [hc, if_true, Option.some.injEq] at hb0
+          subst hb0
+          obtain ⟨e1, e2⟩ := eq_false_of_flip hf ia ib oka okb hc
+          rw [b2n_truth, b2n_truth]; unfold FP.ne; rw [e1, e2]; exact ⟨rfl, rfl⟩
+        · simp [hc] at hb0
+      eqc := fun a c hc => by simp at hc
+      addsub := fun t a b hc => by simp at hc }
   | not =>
     simp only [hop] at h h'
     simp only [stepInfo, hop]
@@ -549,21 +924,46 @@ theorem step_ok (hf : WF f) (cfg : Cfg) (lib : Libm) (hlib : LibOK f lib) (ins i
     simp only [stepInfo, hop]
     obtain ⟨c, a, b, hc, ha, hb, rfl⟩ := bind3_some h
     obtain ⟨c', a', b', hc', ha', hb', rfl⟩ := bind3_some h'
-    obtain ⟨_, xc, _, _, okc, dc, _, _, _⟩ := arg_pair hinv hc hc'
+    obtain ⟨_, xc, _, _, okc, dc, ic, _, _⟩ := arg_pair hinv hc hc'
     obtain ⟨ja, xa, hja, hxa, oka, da, _, eja, eja'⟩ := arg_pair hinv ha ha'
     obtain ⟨jb, xb, hjb, hxb, okb, db, _, ejb, ejb'⟩ := arg_pair hinv hb hb'
     apply infoOK_plain
+    simp only [kbOf, ic]
     rw [dc, da, db]
-    refine select_rel hf okc.rel oka.rel okb.rel ?_
-    intro h3
-    simp only [isNegPair, hja, hjb, hxa, hxb, Bool.or_eq_true, beq_iff_eq] at h3
-    rcases h3 with h3 | h3
-    · obtain ⟨u, u', e1, e2, e3, e4⟩ := oka.negOf jb h3
-      rw [ejb] at e1; rw [ejb'] at e2; cases e1; cases e2
-      exact Or.inl ⟨e3, e4⟩
-    · obtain ⟨u, u', e1, e2, e3, e4⟩ := okb.negOf ja h3
-      rw [eja] at e1; rw [eja'] at e2; cases e1; cases e2
-      exact Or.inr ⟨e3, e4⟩
+    cases hk : xc.kb with
+    | some bb =>
+      obtain ⟨k1, k2⟩ := okc.kb bb hk
+      cases bb with
+      | true =>
+        simp only [k1, k2, if_true]
+        have ra := oka.rel
+        cases hd : xa.d <;> rw [hd] at ra <;> first | trivial | exact ra
+      | false =>
+        simp only [k1, k2, Bool.false_eq_true, if_false]
+        have rb := okb.rel
+        cases hd : xb.d <;> rw [hd] at rb <;> first | trivial | exact rb
+    | none =>
+      simp only
+      refine select_rel hf okc.rel oka.rel okb.rel ?_
+      intro h3
+      simp only [isNegPair, hja, hjb, hxa, hxb, Bool.or_eq_true, beq_iff_eq] at h3
+      rcases h3 with (h3 | h3) | h3
+      · obtain ⟨u, u', e1, e2, e3, e4⟩ := oka.negOf jb h3
+        rw [ejb] at e1; rw [ejb'] at e2; cases e1; cases e2
+        exact Or.inl ⟨e3, e4⟩
+      · obtain ⟨u, u', e1, e2, e3, e4⟩ := okb.negOf ja h3
+        rw [eja] at e1; rw [eja'] at e2; cases e1; cases e2
+        exact Or.inr ⟨e3, e4⟩
+      · cases hca : xa.cst with
+        | none => simp [hca] at h3
+        | some c1 =>
+          cases hcb : xb.cst with
+          | none => simp [hca, hcb] at h3
+          | some c2 =>
+            simp only [hca, hcb, beq_iff_eq] at h3
+            obtain ⟨e1, e2⟩ := oka.cst c1 hca
+            obtain ⟨e3, e4⟩ := okb.cst c2 hcb
+            exact Or.inr ⟨by rw [e3, e1, h3], by rw [e4, e2, h3]⟩
   | libm name =>
     simp only [hop] at h h'
     simp only [stepInfo, hop]
@@ -606,7 +1006,32 @@ theorem step_ok (hf : WF f) (cfg : Cfg) (lib : Libm) (hlib : LibOK f lib) (ins i
                       simp only [dOf, hargs, List.getElem?_cons_zero, List.getElem?_cons_succ, hx0, hx1] at d0 d1
                       rw [d0] at r0; rw [d1] at r1
                       exact hlib.atan2_odd a a' b b' v v' r0 r1 h h'
-          · trivial
+          · split
+            · rename_i hd
+              obtain ⟨hname, hlen, d0⟩ := hd
+              subst hname
+              obtain ⟨a, a', x0, _, e0, e0', ok0, dd0, _, rfl, rfl⟩ := one_arg hinv hlen hvs hvs'
+              have r0 := ok0.rel
+              rw [dd0] at d0; rw [d0] at r0
+              exact hlib.cos_even a a' v v' r0 h h'
+            · split
+              · rename_i hd
+                obtain ⟨hname, hlen, d0⟩ := hd
+                subst hname
+                obtain ⟨a, a', x0, _, e0, e0', ok0, dd0, _, rfl, rfl⟩ := one_arg hinv hlen hvs hvs'
+                have r0 := ok0.rel
+                rw [dd0] at d0; rw [d0] at r0
+                exact hlib.sin_odd a a' v v' r0 h h'
+              · split
+                · rename_i hd
+                  obtain ⟨hname, hlen, hz⟩ := hd
+                  subst hname
+                  obtain ⟨a, a', x0, _, e0, e0', ok0, _, nz0, rfl, rfl⟩ := one_arg hinv hlen hvs hvs'
+                  rw [nz0] at hz
+                  obtain ⟨q1, q2, q3⟩ := ok0.nzin hz
+                  rw [q1] at h'
+                  exact hlib.sign_odd a v v' q2 q3 h h'
+                · trivial
   | fma => simp only [stepInfo, hop]; exact infoOK_plain trivial
   | npmax => simp only [stepInfo, hop]; exact infoOK_plain trivial
   | npmin => simp only [stepInfo, hop]; exact infoOK_plain trivial
@@ -624,6 +1049,16 @@ lemma infoOK_mono {env env' : Array Nat} {x : Info} {v' v : Nat} (h : InfoOK f e
   { rel := h.rel
     zero := h.zero
     nzin := h.nzin
+    cst := h.cst
+    kb := h.kb
+    eqc := by
+      intro a c hc
+      obtain ⟨hn, u, u', e1, e2, e3, e4⟩ := h.eqc a c hc
+      exact ⟨hn, u, u', push_lookup e1 w, push_lookup e2 w', e3, e4⟩
+    addsub := by
+      intro t a b hc
+      obtain ⟨ua, ua', ub, ub', e1, e2, e3, e4, e5, e6⟩ := h.addsub t a b hc
+      exact ⟨ua, ua', ub, ub', push_lookup e1 w, push_lookup e2 w', push_lookup e3 w, push_lookup e4 w', e5, e6⟩
     negOf := by
       intro k hk
       obtain ⟨u, u', e1, e2, e3, e4⟩ := h.negOf k hk
